@@ -4,23 +4,61 @@ which name, which fault): the choice is made concrete by a chain of forks
 feasible one), after which the real code runs on concrete values - natively,
 outside CrossHair's tracer, which is 10-50x faster than traced execution."""
 import contextlib
+import os
 
 from .symchars import is_tracing
 
 
+class _Untraced:
+    """CrossHair's NoTracing plus, on Python >= 3.12, switching off the per-instruction
+    sys.monitoring events for the duration: NoTracing alone still pays a callback per
+    executed instruction (measured ~8x slower than native on the schema machinery)."""
+
+    def __enter__(self):
+        import sys
+        from crosshair import tracers
+        self._nt = tracers.NoTracing()
+        self._nt.__enter__()
+        self._mon = None
+        if sys.version_info >= (3, 12) and os.environ.get('VERIF_KEEP_MONITORING') != '1':
+            tid = tracers.SYS_MONITORING_TOOL_ID
+            try:
+                self._mon = (tid, sys.monitoring.get_events(tid))
+                sys.monitoring.set_events(tid, 0)
+            except Exception:     # noqa: BLE001
+                self._mon = None
+        return self
+
+    def __exit__(self, *a):
+        import sys
+        if self._mon is not None:
+            tid, ev = self._mon
+            sys.monitoring.set_events(tid, ev)
+            sys.monitoring.restart_events()
+        return self._nt.__exit__(*a)
+
+
 def untraced():
     if is_tracing():
-        from crosshair.tracers import NoTracing
-        return NoTracing()
+        return _Untraced()
     return contextlib.nullcontext()
 
 
 def concrete_index(x: int, n: int) -> int:
-    """x as a concrete int in 0..n-1, or -1 if it is outside that range."""
-    for i in range(n):
-        if x == i:
-            return i
-    return -1
+    """x as a concrete int in 0..n-1, or -1 if it is outside that range.
+    Bisection: about log2(n) solver decisions per path instead of up to n."""
+    if x < 0:
+        return -1
+    if x >= n:
+        return -1
+    lo, hi = 0, n
+    while hi - lo > 1:
+        mid = (lo + hi) // 2
+        if x < mid:
+            hi = mid
+        else:
+            lo = mid
+    return lo
 
 
 def concrete_bool(b: bool) -> bool:
